@@ -13,7 +13,7 @@ from fractions import Fraction
 
 S = Sym
 PROPERTY = 'C08'
-PROPS_MODULES = ['C08', 'C08a', 'C08b', 'C08c']
+PROPS_MODULES = ['C08', 'C08a', 'C08b', 'C08c', 'C08d']
 ASSUMPTIONS = ['exact rational arithmetic (IEEE rounding is not modelled); NaN / arithmetic on infinities are evaluation errors of the original, '
                'so they constrain nothing', 'outputs are compared modulo the order of set-literal members and of flattened and/or chains '
                '(Python set iteration order is arbitrary)']
